@@ -134,6 +134,28 @@ OPS = {
 TARGETED = ("TF", "FAN")
 
 
+def estimate_faces(face_lens, kind, targets=None):
+    """number of faces of the refined mesh (cheap bound used to skip sequences whose result is too large)"""
+    total = 0
+    for i, k in enumerate(face_lens):
+        lens = [k]
+        if targets is None or i in targets:
+            for a in OPS[kind]:
+                nxt = []
+                for q in lens:
+                    if a == "T":
+                        nxt += [3] * (1 if q == 3 else (2 if q == 4 else q))
+                    elif a == "FAN":
+                        nxt += [3] * q
+                    elif a == "L0":
+                        nxt += [3] * 4
+                    else:
+                        nxt += [4] * 3
+                lens = nxt
+        total += len(lens)
+    return total
+
+
 def _alts(atom, face, existing):
     return atom_T(face, existing) if atom == "T" else ATOMS[atom](face)
 
